@@ -15,6 +15,7 @@ _H = os.path.dirname(os.path.dirname(os.path.abspath(__file__)))
 if _H not in sys.path:
     sys.path.insert(0, _H)
 
+import common  # noqa: E402
 from common import ensure_repo_on_path, f2h, REPO  # noqa: E402
 
 ensure_repo_on_path()
@@ -40,7 +41,9 @@ class Budget:
 
 
 def tier_seconds(tier, quick=25.0, thorough=420.0):
-    return quick if tier == "quick" else thorough
+    v = quick if tier == "quick" else thorough
+    cap = common.ORACLE_CAP[0]
+    return v if cap is None else min(v, max(5.0, cap[0] - time.time()))
 
 
 # ------------------------------------------------------------------------------------------------
